@@ -20,7 +20,8 @@ def assigned_names(lines):
 
 def inject(rng, text, force_kind=None):
     """Returns (new text, expected kind, expected name, fault class) or None."""
-    lines = lines_of(text)
+    # the generator's observer wires read built-in inputs this function may un-assign: leave them out
+    lines = [l for l in lines_of(text) if not re.match(r"^(wire )?obs\d", l)]
     wires = [m.group(1) for l in lines for m in [re.match(r"^wire (\w+) :", l)] if m]
     consts = [m.group(1) for l in lines for m in [re.match(r"^const (\w+) =", l)] if m]
     assigned = assigned_names(lines)
@@ -140,6 +141,14 @@ def inject(rng, text, force_kind=None):
                 li2 = rng.choice(free_lo)
                 nb, sig = li2 + b.group(2), "%s_%s" % (b.group(2), rname)
                 extra = ["%s_%s = 0;" % (li2, rname)]
+            if rng.random() < 0.6 and len(free_lo) > 2 and len(free_up) > 2:
+                # further, unrelated banks that merely have a register of the same name (anywhere between the two)
+                for _ in range(rng.randint(1, 2)):
+                    l3 = rng.choice([c for c in free_lo if c + "_" + rname not in " ".join(extra) and c != nb[0]])
+                    u3 = rng.choice([c for c in free_up if c != nb[1]])
+                    free_lo.remove(l3)
+                    free_up.remove(u3)
+                    extra += ["register %s%s { %s : %d = 0; }" % (l3, u3, rname, rng.choice([1, 8, 64])), "%s_%s = 0;" % (l3, rname)]
             return add("register %s { %s : %d = 0; }" % (nb, rname, w2), *extra), "DoubleDeclaredRegisterOutWire", sig, kind
     if kind == "redecl_wire" and wires:
         w = rng.choice(wires)
